@@ -336,6 +336,7 @@ func run(c *hx.Ctx) error {
 	}
 	deferStream(c)
 	deferCallees(c)
+	repanicStream(c)
 	if built < nTemplates/2 {
 		return fmt.Errorf("only %d of %d generated templates build — generator is broken", built, nTemplates)
 	}
@@ -661,6 +662,86 @@ func deferCallees(c *hx.Ctx) {
 						res.AddBreak(proto.Break{Kind: "property", Name: "defer-callee:" + clause, Case: fmt.Sprintf("C13 defer-callee k=%d", k),
 							Human: fmt.Sprintf("writer failing at call %d of %d; deferred callee `%s` (%s); Run returned %v, host panic %v, %d deferred calls registered, %d run, %d Write calls after the failure\n--- index.html ---\n%s\nvars s=%q n=%v", k, len(rec.chunks), d1, sh.name, err, p, regs, ran, fw.after, src, vars["s"], vars["n"]),
 							Impl: fmt.Sprintf("%v / panic %v / ran %d", err, p, ran), Model: fmt.Sprintf("%v / no panic / ran %d", errE, regs)})
+					}
+				}
+			}
+		}
+	}
+}
+
+
+// repanicStream: the Go cleanup idiom — a deferred function recovers, cleans up and panics again
+// with the value it recovered. The template does not swallow the writer's failure, it re-raises
+// it: Run must still return E itself (recover_returns_raised_value: recover hands back the raised
+// outError, which convertPanic and VM.Run recognise when it is raised again), the host must not
+// panic and nothing may be written after the failure.
+func repanicStream(c *hx.Ctx) {
+	res := c.Res
+	cleaned := 0
+	decl := native.Declarations{"s": (*string)(nil), "n": (*int)(nil), "cleanup": func() { cleaned++ }}
+	bodies := []string{`<h1>{{ s }}</h1>`, `text{{ n }}`, `<p title="{{ s }}">x</p>{{ render "p.html" }}`, `{% for i := 0; i < 3; i++ %}{{ i }},{% end %}`, `<script>var a = "{{ s }}";</script>`}
+	idioms := []string{
+		`{% defer func() { if e := recover(); e != nil { cleanup(); panic(e) } }() %}`,
+		`{% defer func() { e := recover(); cleanup(); if e != nil { panic(e) } }() %}`,
+		`{% defer func() { e := recover(); var v any = e; cleanup(); if v != nil { panic(v) } }() %}`,
+		`{% defer func() { defer func() { if e := recover(); e != nil { cleanup(); panic(e) } }(); if e := recover(); e != nil { panic(e) } }() %}`,
+		`{% defer func() { if e := recover(); e != nil { cleanup(); panic(e) } }() %}{% defer func() { if e := recover(); e != nil { panic(e) } }() %}`,
+	}
+	shapes := []func(idiom, body string) string{
+		func(idiom, body string) string { return idiom + body },
+		func(idiom, body string) string { return "head" + idiom + body + "tail" },
+		func(idiom, body string) string { return `{% macro B %}` + idiom + body + `{% end %}pre{{ B() }}post` },
+		func(idiom, body string) string {
+			return `{% macro I %}` + body + `{% end %}{% macro O %}` + idiom + `a{{ I() }}b{% end %}{{ O() }}`
+		},
+	}
+	for _, idiom := range idioms {
+		for _, body := range bodies {
+			for si, sh := range shapes {
+				src := sh(idiom, body)
+				files := scriggo.Files{"index.html": []byte(src), "p.html": []byte(`<i>{{ s }}</i>`)}
+				t, err := scriggo.BuildTemplate(files, "index.html", &scriggo.BuildOptions{Globals: decl})
+				if err != nil {
+					res.Hist("repanic:build-error")
+					if res.Histogram["repanic:build-error"] <= 2 {
+						res.Notes = append(res.Notes, fmt.Sprintf("repanic template does not build: %v\n%s", err, src))
+					}
+					continue
+				}
+				vars := map[string]any{"s": randString(c.R, 8), "n": 1 + c.R.Intn(50)}
+				rec := &recWriter{}
+				if err, p := runWith(t, rec, vars); err != nil || p != nil {
+					res.Hist("repanic:run-error-without-writer-failure")
+					continue
+				}
+				res.Hist("repanic:templates")
+				for k := 1; k <= len(rec.chunks); k++ {
+					fw := &failWriter{k: k}
+					cleaned = 0
+					err, p := runWith(t, fw, vars)
+					res.Count(fmt.Sprintf("repanic:%s#%d", src, k), true)
+					var want []byte
+					for _, ch := range rec.chunks[:k-1] {
+						want = append(want, ch...)
+					}
+					clause := ""
+					switch {
+					case p != nil:
+						clause = "host-panics"
+					case err != errE:
+						clause = "reraised-writer-error-not-returned-as-E"
+					case fw.after > 0:
+						clause = "write-after-failure"
+					case string(fw.accepted) != string(want):
+						clause = "accepted-bytes-differ-from-first-k-1-chunks"
+					}
+					if clause == "" && cleaned > 0 {
+						res.Hist("repanic:failure-reraised-by-the-template")
+					}
+					if clause != "" {
+						res.AddBreak(proto.Break{Kind: "property", Name: "repanic:" + clause, Case: fmt.Sprintf("C13 repanic k=%d shape=%d", k, si),
+							Human: fmt.Sprintf("writer failing at call %d of %d; a deferred function recovers and panics again with the recovered value; Run returned %v (%T), host panic %v, %d Write calls after the failure\n--- index.html ---\n%s\nvars s=%q n=%v", k, len(rec.chunks), err, err, p, fw.after, src, vars["s"], vars["n"]),
+							Impl: fmt.Sprint(err), Model: errE.Error()})
 					}
 				}
 			}
